@@ -11,7 +11,7 @@ from .c05 import install_callback_env, B, PARSE
 PROP = "C06"
 MIN_OBLIGATIONS = 20
 ASSUMPTIONS = ["warnings.warn is modelled as an append to the ghost warning list"]
-ENUMERATED = ["datagram length classes 0, 1, >= 2 (symbolic, up to 65535)", "all 65,536 model codes as two symbolic bytes distinct from the known codes"]
+ENUMERATED = ["datagram length classes 0..7 exact and >= 8 (symbolic, up to 65535)", "all 65,536 model codes as two symbolic bytes distinct from the known codes"]
 EXPLANATION = ("is_switcher_originator executed on datagrams of every length (symbolic) must equal spec.gate_spec; "
                "_parse_device_from_datagram on any non-gate datagram must have no effect at all, and on a gate-passing datagram "
                "with an unknown model code must warn once, deliver nothing and not raise")
@@ -27,6 +27,8 @@ def interp_for(unit):
 def mk_datagram(ctx, lc):
     if lc == "ge2":
         return sym_bytes_atleast(ctx, "m", 2, 65535)
+    if lc == "ge8":
+        return sym_bytes_atleast(ctx, "m", 8, 65535)
     m = sym_bytes(ctx, "m", lc) if lc else b""
     ctx.inputs["m"] = m
     return m
@@ -39,7 +41,7 @@ def effects(ctx, ob):
 
 def units(tier):
     u = {}
-    for lc in (0, 1, "ge2"):
+    for lc in (0, 1, 2, 3, 4, 5, 6, 7, "ge8"):
         def gate(ip, ctx, lc=lc):
             m = mk_datagram(ctx, lc)
             parser = ip.instantiate(cls(B + "DatagramParser"), [m], {}, ctx)
@@ -86,13 +88,15 @@ def units(tier):
             ob = outcome_of(lambda: ip.call_function(func(PARSE), [cb, m], {}, ctx))
             ctx._eff = effects(ctx, ob)
             base = f"{PROP}/unknown_model_len_{n}"
-            return [Obligation(base + "/no_exception", ctx, ob[0] == "ret", note=str(ob[1]) if ob[0] == "exc" else ""),
+            return [Obligation(base + "/assigns_nothing", ctx, not ctx.ghost.heap_writes and not ctx.ghost.module_writes,
+                               note=str(ctx.ghost.module_writes[:2])),
+                    Obligation(base + "/no_exception", ctx, ob[0] == "ret", note=str(ob[1]) if ob[0] == "exc" else ""),
                     Obligation(base + "/no_device", ctx, len(ctx.ghost.callback_calls) == 0),
                     Obligation(base + "/one_unknown_device_warning", ctx, ctx.ghost.warnings == [WARNING])]
         u[f"unknown_model_{n}"] = Unit(f"unknown_model_{n}", PROP, unknown, functions=[PARSE, B + "DatagramParser.get_device_type"], witness=eff_wit)
 
     def canary(ip, ctx):
-        m = mk_datagram(ctx, "ge2")
+        m = mk_datagram(ctx, "ge8")
         parser = ip.instantiate(cls(B + "DatagramParser"), [m], {}, ctx)
         r = ip.call_function(func(B + "DatagramParser.is_switcher_originator"), [parser], {}, ctx)
         t = ip.truth(r, ctx)
